@@ -779,7 +779,6 @@ def check(case, ctx):
     ctx.label("game=" + game)
     ctx.label("history=" + hk)
     ctx.label("labels-non-default", nondefault)
-    ctx.label("dtype-object-history", hk in ("append", "append_sort"))
     ctx.label("ops=%d" % len(ops))
     ctx.label("has-empty-list", any(len(tl) == 0 for m in _maps_of(obj) for tl in m.objs.values()))
     ctx.nt(nondefault or len(ops) >= 2)
